@@ -170,12 +170,14 @@ impl MDBShardInfo {
             decreases cas_header.num_entries - off - i,
 //@ after `let mut n_bytes = first_chunk.unpacked_segment_bytes;`
         proof {
-            assert(first_chunk == xs[off]);
+            // carries the property: the record the code decoded after its two seeks IS entry `off` of the block the contract speaks about
+            /*@C05,C18*/ assert(first_chunk == xs[off]);
             assert(sum_unpacked(xs, off, off) == 0);
         }
 //@ before `n_bytes += chunk.unpacked_segment_bytes;`
             proof {
-                assert(chunk == xs[off + i]);
+                // carries the property: the record compared in this iteration IS entry off+i of that block
+                /*@C05,C18*/ assert(chunk == xs[off + i]);
                 lemma_sum_split(xs, 0, off, off + i + 1); lemma_sum_split(xs, 0, off + i + 1, xs.len() as int);
             }
 //@ end
